@@ -460,6 +460,11 @@ func runHistory1(h history, corr bool) {
 		rep.Violate("C16:ctor:reader_consumed", "NewBlockFromReader did not consume exactly the block", h.replay(map[string]interface{}{"unread": unread}))
 	}
 	lt = append(lt, coqTxLocEntry(fresh))
+	// the model takes MsgBlock.SerializeSize() to be the length of MsgBlock.Serialize()'s output (NewBlockFromBytes
+	// compares it with the number of bytes consumed): a fact about package wire, checked on every block
+	if m.SerializeSize() != len(fresh) {
+		rep.Violate("C16:dependency:serialize_size", "wire.MsgBlock.SerializeSize() is not the length of Serialize()'s output", h.replay(map[string]interface{}{"SerializeSize()": m.SerializeSize(), "len(Serialize())": len(fresh)}))
+	}
 	if !trusted {
 		lt = append(lt, coqTxLocEntry(h.Input))
 	}
@@ -687,11 +692,15 @@ func runHistory1(h history, corr bool) {
 	// re-parse equivalence
 	if trusted {
 		raw, e := b.Bytes()
-		if e == nil && !wireCanonical(raw) {
-			// wire.Deserialize(raw) re-serialises to something else (hypothesis wire_roundtrip fails on
-			// this message: a property of the dependency, established without calling bchutil)
-			rep.Histogram["reparse_skipped_wire_does_not_roundtrip"]++
-		} else if e == nil {
+		if e == nil {
+			// does package wire itself read these bytes back as what they serialise (hypothesis wire_roundtrip;
+			// decided with wire alone)?  Where it does not (script 0xef + zero category + token body), the clause
+			// cannot hold for any wrapper: known finding, reported under C16:wire-noncanonical:reparse only.
+			key := "C16:reparse"
+			if !wireCanonical(raw) {
+				key = "C16:wire-noncanonical:reparse"
+				rep.Histogram["reparse_wire_does_not_roundtrip"]++
+			}
 			b2, e2 := bchutil.NewBlockFromBytes(append([]byte(nil), raw...))
 			ok := e2 == nil && b2 != nil
 			if ok {
@@ -707,7 +716,7 @@ func runHistory1(h history, corr bool) {
 				ok = ok && fmt.Sprint(l1) == fmt.Sprint(l2)
 			}
 			if !ok {
-				rep.Violate("C16:reparse", "a block re-parsed from Bytes() is not equivalent to the original", h.replay(map[string]interface{}{"error": fmt.Sprint(e2)}))
+				rep.Violate(key, "a block re-parsed from Bytes() is not equivalent to the original", h.replay(map[string]interface{}{"error": fmt.Sprint(e2)}))
 			}
 		}
 	}
